@@ -396,6 +396,31 @@ def gen_case(rng):
     return {'file': flines, 'pre': pre, 'glob': {'cmd': 'g', 'addr': addr, 'spell': 'g', 'pat': 'a', 'body': [{'cmd': 's', 'pat': '$', 'rep': ' V'}]}, 'nblocks': 0}
 
 
+def gen_minus1(rng):
+    """command lists that leave the current line at -1 and still succeed: `0;<unresolvable>` fails after `;` moved the current line, a
+    later command with an absolute address succeeds without touching it.  ec_glob must restart its scan at MAX(0, MIN(i, xrow))
+    (fixed: /repo 5d2c325; before, it indexed ln_glob[-1] -- visible only to the ASan run below)"""
+    n = rng.choice([1, 2, 3, 4, 6, 8])
+    flines = [rng.choice('ab') + str(i + 1) for i in range(n)]
+    zero_semi = lambda: [({'base': ('n', 0), 'offs': []}, ';'), rng.choice([({'base': ('n', rng.choice([99, 40])), 'offs': []}, None),
+                                                                             ({'base': ('m', 'z'), 'offs': []}, None),
+                                                                             ({'base': ('/', 'nomatch'), 'offs': []}, None)])]
+    for _ in range(20):
+        body = []
+        if rng.chance(2, 3):
+            body.append({'cmd': 'p', 'addr': []})
+        if rng.chance(1, 3):
+            body.append(rng.choice([{'cmd': 's', 'pat': '$', 'rep': ' V'}, {'cmd': 'pu', 'addr': [({'base': ('n', 0), 'offs': []}, None)], 'reg': 'r'},
+                                    {'cmd': 'd', 'addr': [({'base': None, 'offs': [-1]}, None)]}]))
+        body.append({'cmd': rng.choice(['p', 'p', 'd', 'y']), 'addr': zero_semi()})
+        body.append({'cmd': 'y', 'addr': [({'base': rng.choice([('n', 1), ('$',)]), 'offs': []}, None)]})
+        g = {'cmd': 'g', 'addr': '%' if rng.chance(1, 2) else [], 'spell': rng.choice(['g', 'g', 'v']), 'pat': rng.choice(PATS), 'body': body}
+        case = {'file': flines, 'pre': [[{'cmd': 'rs', 'reg': 'r', 'text': ['r1']}]], 'glob': g, 'nblocks': 0}
+        if settle(case) is not None:
+            return case
+    return None
+
+
 def gen_range(rng, n):
     rt = rng.below(10)
     if rt < 2:
@@ -710,6 +735,11 @@ def run(ctx):
             c = gen_big(rng.fork('b%d' % i), allow_2048=(not ctx.quick) or i % 8 == 0)
             if c is not None:
                 cases.append(c)
+        for i in range(60 if ctx.quick else 1500):
+            c = gen_minus1(rng.fork('m%d' % i))
+            if c is not None:
+                c['kind'] = 'minus1'
+                cases.append(c)
     mans = [None] * len(cases)
     if model:
         # the extracted model is list based: a dense global on 1000 lines takes it about a second, on 2000 lines several;
@@ -734,6 +764,17 @@ def run(ctx):
         res.extra['cases run through the extracted model'] = len(idx)
         res.extra['cases judged by the reference oracle only (buffer larger than %d lines)' % MODEL_MAX_LINES] = len(cases) - len(idx)
     results = vlib.pmap(lambda cm: check_case(vi, cm[0], cm[1]), list(zip(cases, mans)))
+    # the same scripts under AddressSanitizer for the corpus, the `current line = -1` stream and a sample of the others: an
+    # out-of-bounds access of the ln_glob table (restart index -1, stale capacity) changes nothing visible in the plain build
+    if True:
+        vi_asan = vlib.build_vi(asan=True)
+        ncorp = 0 if ctx.replay else len(corpus_cases())
+        sel = [j for j, c in enumerate(cases) if ctx.replay or (len(c['file']) <= 64 and (j < ncorp or c.get('kind') == 'minus1' or j % 12 == 0))]
+        ares = vlib.pmap(lambda j: check_case(vi_asan, cases[j], None), sel)
+        res.extra['cases also run under AddressSanitizer'] = len(sel)
+        for j, (kind, det) in zip(sel, ares):
+            if kind == 'crash':
+                res.violation(dict(det, what='ASan build: ' + det['what'], input=case_input(cases[j])))
     nshr = 0
     for case, (kind, det) in zip(cases, results):
         res.evaluations += 1
